@@ -1,4 +1,6 @@
 """C22 — immutable share storage semantics (storage/immutable.py, storage/server.py)."""
+import os
+
 import props.imm_util as U
 
 ID = "C22"
@@ -65,12 +67,30 @@ CORPUS += [
 ]
 
 
+CORPUS += [
+    # seeded C22-a: two separately written chunks [0,10) and [20,30) with a hole; a write [5,25) that
+    # agrees with the first overlapped chunk but differs in the second must be rejected, data unchanged
+    [["A", 0, [0], 30, 0, 10 ** 9], ["W", 0, 0, "00010203040506070809"], ["W", 0, 20, "141516171819 1a1b1c1d".replace(" ", "")],
+     ["W", 0, 5, "0506070809" + "aa" * 10 + "14ff161718"], ["W", 0, 5, "0506070809" + "aa" * 10 + "1415161718"],
+     ["C", 0], ["R", 0, 0, 0, 100], ["D"]],
+    # seeded C22-c: the last in-progress share of an SI that already has a completed share ends by
+    # abort / by timeout / by disconnect: the completed sibling must stay visible and readable
+    [["A", 0, [0, 1], 4, 0, 10 ** 9], ["W", 0, 0, "01020304"], ["C", 0], ["X", 1], ["L", 0], ["R", 0, 0, 0, 4], ["D"]],
+    [["A", 1, [0, 1], 4, 0, 10 ** 9], ["W", 0, 0, "01020304"], ["C", 0], ["T", 1800], ["L", 1], ["R", 1, 0, 0, 4], ["D"]],
+    [["A", 2, [0, 1], 4, 0, 10 ** 9, 1], ["W", 0, 0, "01020304"], ["C", 0], ["K", 1], ["L", 2], ["R", 2, 0, 0, 4], ["D"]],
+    # seeded C28-a (also a C22 reservation clause): a tail-first write must not shrink the reservation
+    [["A", 0, [0], 40, 0, 10 ** 9], ["W", 0, 39, "ff"], ["S"], ["X", 0], ["S"]],
+    # seeded C28-c: abort while a sibling upload of the same SI / of the same prefix dir is in progress
+    [["A", 0, [0, 1], 30, 0, 10 ** 9], ["A", 2, [0], 30, 1, 10 ** 9], ["X", 0], ["S"], ["X", 1], ["S"], ["X", 2], ["S"], ["D"]],
+]
+
+
 def digest(prefix_state, op):
     return hash((prefix_state, repr(op)))
 
 
 def run(ctx):
-    n_hist = ctx.budget(160, 6000)
+    n_hist = 0 if os.environ.get("VERIF_CORPUS_ONLY") else ctx.budget(160, 6000)
     cases = []
     if ctx.replay:
         cases = [("replay", ctx.replay["case"]["ops"], True)]
